@@ -163,9 +163,11 @@ impl<'a> StateMachine<'a> {
 
             // A hunk header is written when the first line of its hunk arrives. If what arrives
             // instead starts something new (truncated or hand-edited input), write it now.
+            // The same goes for a merge conflict region that starts on the first line of a hunk.
             if matches!(self.state, State::HunkHeader(_, _, _, _))
                 && (self.line.starts_with("diff ")
                     || self.line.starts_with("@@")
+                    || self.line.starts_with("++<<<<<<<")
                     || self.config.commit_regex.is_match(&self.line))
             {
                 self.emit_pending_hunk_header()?;
